@@ -6,12 +6,16 @@
 -/
 import Rl.Wire
 import Rl.Drv.History
+import Rl.Drv.Keys
+import Rl.Drv.Editor
 open Rl Rl.Wire
 
 def dispatch (tbl : CharTable) (target : String) (f : List String) (impl : String) : String × String :=
   let r : Option (String × String) :=
     match target with
     | "hist" => Rl.Drv.History.handle tbl f impl
+    | "keys" => Rl.Drv.Keys.handle tbl f impl
+    | "ed" => Rl.Drv.Editor.handle tbl f impl
     | _ => some ("unknown-target", "-")
   r.getD ("bad-request", "bad-request")
 
